@@ -91,8 +91,8 @@ def spec_C01(prop, tier, seed, t0):
     rng = random.Random(seed * 7919 + 1)
     profs = ["mixed", "readers", "writers", "convert", "ssix", "random", "optimistic", "prepare", "sx"]
     if tier == "quick":
-        jobs = lock_jobs(rng, CLASSES, profs, 12)
-        jobs += seq_jobs(rng, CLASSES, 3)
+        jobs = lock_jobs(rng, CLASSES, profs, 24)
+        jobs += seq_jobs(rng, CLASSES, 5)
     else:
         jobs = lock_jobs(rng, CLASSES, profs, 300, ops_total=40000, mcs_ops_total=10000)
         jobs += seq_jobs(rng, CLASSES, 60, programs=600)
@@ -119,7 +119,7 @@ def spec_C07(prop, tier, seed, t0):
 def spec_C08(prop, tier, seed, t0):
     rng = random.Random(seed * 7919 + 8)
     profs = ["mixed", "readers", "writers", "convert", "ssix", "sx", "optimistic", "prepare", "random"]
-    n = 14 if tier == "quick" else 400
+    n = 40 if tier == "quick" else 400
     kw = dict(flavor="tsan", ops_total=6000, mcs_ops_total=3000, threads_choices=(2, 3, 4, 6, 8),
               hold_choices=(0, 500, 2000))
     jobs = lock_jobs(rng, CLASSES, profs, n, **kw)
@@ -159,7 +159,7 @@ def spec_C02(prop, tier, seed, t0):
 def spec_C03(prop, tier, seed, t0):
     rng = random.Random(seed * 7919 + 3)
     profs = ["optimistic", "prepare", "mixed", "writers", "random"]
-    n = 30 if tier == "quick" else 1500
+    n = 60 if tier == "quick" else 1500
     jobs = lock_jobs(rng, ["opt"], profs, n, hold_choices=(0, 500, 2000, 20000), chaos_choices=(2, 3, 3),
                      ops_total=30000)
     jobs += seq_jobs(rng, ["opt"], 6 if tier == "quick" else 120, programs=300 if tier == "quick" else 600)
@@ -174,7 +174,7 @@ def spec_C03(prop, tier, seed, t0):
 def spec_C09(prop, tier, seed, t0):
     rng = random.Random(seed * 7919 + 9)
     profs = ["writers", "mixed", "convert", "optimistic", "random"]
-    n = 16 if tier == "quick" else 600
+    n = 30 if tier == "quick" else 600
     jobs = lock_jobs(rng, ["opt"], profs, n)
     jobs += lock_jobs(rng, ["opt"], profs, n, extra={"arbver": 1})
     jobs += seq_jobs(rng, ["opt"], 10 if tier == "quick" else 200, programs=300 if tier == "quick" else 800)
@@ -185,7 +185,7 @@ def spec_C09(prop, tier, seed, t0):
 def spec_C10(prop, tier, seed, t0):
     rng = random.Random(seed * 7919 + 10)
     profs = ["convert", "mixed", "random", "ssix"]
-    n = 12 if tier == "quick" else 500
+    n = 24 if tier == "quick" else 500
     jobs = lock_jobs(rng, CLASSES, profs, n, chaos_choices=(2, 3, 3))
     jobs += seq_jobs(rng, CLASSES, 3 if tier == "quick" else 60, programs=300 if tier == "quick" else 600)
     if tier != "quick":
@@ -197,7 +197,7 @@ def spec_C10(prop, tier, seed, t0):
 def spec_C11(prop, tier, seed, t0):
     rng = random.Random(seed * 7919 + 11)
     profs = ["mixed", "starve", "sx", "writers", "convert", "ssix", "readers", "random"]
-    n = 32 if tier == "quick" else 1500
+    n = 64 if tier == "quick" else 1500
     jobs = lock_jobs(rng, ["mcs"], profs, n, threads_choices=(4, 6, 8, 12, 16), hold_choices=(2000, 20000, 50000),
                      mcs_ops_total=5000, chaos_choices=(1, 2, 3))
     jobs += seq_jobs(rng, ["mcs"], 8 if tier == "quick" else 200, programs=300 if tier == "quick" else 600)
@@ -209,7 +209,7 @@ def spec_C11(prop, tier, seed, t0):
 def spec_C12(prop, tier, seed, t0):
     rng = random.Random(seed * 7919 + 12)
     profs = ["mixed", "readers", "sx", "ssix", "convert", "starve", "random", "writers"]
-    n = 24 if tier == "quick" else 1000
+    n = 48 if tier == "quick" else 1000
     jobs = lock_jobs(rng, ["mcs"], profs, n, hold_choices=(500, 2000, 20000), locks_choices=(1, 2, 3),
                      mcs_ops_total=6000, chaos_choices=(1, 2, 3))
     jobs += lock_jobs(rng, ["mcs"], profs, n // 2, flavor="asan", hold_choices=(500, 2000, 20000),
@@ -220,7 +220,7 @@ def spec_C12(prop, tier, seed, t0):
 def spec_C13(prop, tier, seed, t0):
     rng = random.Random(seed * 7919 + 13)
     profs = ["prepare"]
-    n = 30 if tier == "quick" else 1500
+    n = 60 if tier == "quick" else 1500
     jobs = lock_jobs(rng, ["opt"], profs, n, hold_choices=(2000, 20000, 50000), chaos_choices=(2, 3, 3),
                      threads_choices=(3, 4, 6, 8, 12), ops_total=20000)
     jobs += seq_jobs(rng, ["opt"], 6 if tier == "quick" else 120, programs=300 if tier == "quick" else 600)
